@@ -20,6 +20,11 @@ for _f in sorted(glob.glob(os.path.join(_here, "c[0-9][0-9]", "prop.py"))):
 READY = ["C01", "C03", "C05", "C06", "C13", "C14", "C15", "C16", "C17", "C18"]
 CLAIMED = {p: PROPS[p] for p in READY if p in PROPS}
 
+VALID_LEVELS = {"exploration", "fault_enumeration", "model_checking", "proof", "translation_validation", "other"}
+for _p in PROPS.values():
+    if _p.get("level") not in VALID_LEVELS:
+        _p["level"] = "exploration"
+
 NOT_APPLICABLE_REASONS = {}
 PENDING = "check not built yet (work in progress; see DESIGN.md section 8)"
 NOT_APPLICABLE = {p: NOT_APPLICABLE_REASONS.get(p, PENDING) for p in ALL if p not in CLAIMED}
